@@ -30,6 +30,8 @@ class Worktree(object):
             raise RuntimeError(out)
         if patch:
             rc, out = sh("git apply %s" % os.path.abspath(patch), cwd=self.dir)
+            if rc:      # the tree has moved on since the patch was made: merge against the blobs it names
+                rc, out = sh("git apply --3way %s" % os.path.abspath(patch), cwd=self.dir)
             if rc:
                 self.close()
                 raise RuntimeError("patch does not apply: " + out)
